@@ -657,103 +657,155 @@ Definition start_oracle (ops obs : list (list Z)) : bool :=
       end
   end.
 
-(* ---------- engine "tiv": interval() + stop_token, with the lock ownership the code has ----------
-   (scheduler.h:307-328).  Everything happens on the test thread: request_stop() runs the stop callback
-   synchronously, the callback calls cancel(&tag), cancel -> remove locks _mx (l.128), then the promise is
-   resolved with await_canceled_exception outside the lock, which resumes the generator: it catches the
-   exception and finishes.  A thread that holds _mx and acquires it again is a SelfDeadlock. *)
+(* ---------- engine "tiv": interval() generators + stop tokens on one scheduler, with the lock ownership the code has ----------
+   (scheduler.h:307-328).  Up to three generators (index g = 0..2) with independent stop sources share one scheduler in
+   manual mode.  Everything happens on the test thread: request_stop() runs the stop callback synchronously, the
+   callback calls cancel(&tag), cancel -> remove locks _mx (l.128), then the promise is resolved with
+   await_canceled_exception outside the lock, which resumes the generator owning that sleep: it catches the exception
+   and finishes.  A thread that holds _mx and acquires it again is a SelfDeadlock.
+   `tg g` is the ident generator g gives its sleeps: in the code `&tag`, a variable of g's own coroutine frame, hence
+   pairwise distinct (`tag`); the model keeps it a parameter so that the role of distinctness is explicit. *)
 Inductive gstate := GNone | GIdle | GSleeping | GYielded | GDone.
-Record ist := mkI { i_sched : list entry; i_gen : gstate; i_stop : bool; i_owner : bool (* test thread holds _mx *) }.
-Definition ist0 : ist := mkI [] GNone false false.
+Record ist := mkI { i_sched : list entry; i_gens : list gstate; i_stops : list bool;
+                    i_owner : bool (* test thread holds _mx *);
+                    i_clk : Z (* logical clock: only the order of the readings of system_clock::now() matters *);
+                    i_next : list Z (* generator g's `next` (l.315/320): read at body start and after every wake-up *) }.
+Definition ist0 : ist := mkI [] [GNone; GNone; GNone] [false; false; false] false 1 [0; 0; 0].
 
 Inductive ires := IOk (s : ist) (o : list Z) | ISelfDeadlock | IErr.
 
-Definition tag : Z := 1.
+Definition tag (g : nat) : Z := 1 + Z.of_nat g.
+
+Definition gen_of (s : ist) (g : nat) : gstate := nth g (i_gens s) GNone.
+Definition stop_of (s : ist) (g : nat) : bool := nth g (i_stops s) false.
+Definition set_gen (s : ist) (g : nat) (x : gstate) : ist :=
+  mkI (i_sched s) (set_nth (i_gens s) g x) (i_stops s) (i_owner s) (i_clk s) (i_next s).
+
+(* status of generator g's tick future: 0 none / pending, 1 value, 2 no value (generator finished) *)
+Definition gstat (x : gstate) : Z := match x with GYielded => 1 | GDone => 2 | _ => 0 end.
+Definition iobs (s : ist) (kind : Z) : list Z :=
+  0 :: kind :: Z.of_nat (length (i_sched s)) :: map gstat (i_gens s).
 
 (* std::lock_guard _(_mx) by the test thread *)
 Definition acquire (s : ist) : option ist :=
-  if i_owner s then None else Some (mkI (i_sched s) (i_gen s) (i_stop s) true).
-Definition release (s : ist) : ist := mkI (i_sched s) (i_gen s) (i_stop s) false.
+  if i_owner s then None else Some (mkI (i_sched s) (i_gens s) (i_stops s) true (i_clk s) (i_next s)).
 
-(* cancel(&tag) as called from the stop callback; cb_locks = the callback itself takes _mx first
+(* cancel(&tag) as called from generator g's stop callback; cb_locks = the callback itself takes _mx first
    (the code before commit d650829; false for the current code, scheduler.h:310-312) *)
-Definition stop_callback (cb_locks : bool) (s : ist) : ires :=
+Definition stop_callback (cb_locks : bool) (tg : nat -> Z) (s : ist) (g : nat) : ires :=
   match (if cb_locks then acquire s else Some s) with
   | None => ISelfDeadlock
   | Some s1 =>
       match acquire s1 with                                   (* remove(): std::lock_guard _(_mx), l.128 *)
       | None => ISelfDeadlock
       | Some s2 =>
-          match remove (i_sched s2) tag with
-          | Ok (l, Some _) =>
-              (* promise resolved with the exception -> generator resumes, leaves the loop through the catch, finishes *)
-              IOk (mkI l GDone (i_stop s2) false) []
-          | Ok (l, None) => IOk (mkI l (i_gen s2) (i_stop s2) false) []
+          match remove (i_sched s2) (tg g) with
+          | Ok (l, Some t) =>
+              (* the promise is resolved with the exception -> the generator that owns this sleep resumes, leaves its
+                 loop through the catch and finishes *)
+              match e_p t with
+              | Some g' => IOk (mkI l (set_nth (i_gens s2) g' GDone) (i_stops s2) false (i_clk s2) (i_next s2)) []
+              | None => IErr
+              end
+          | Ok (l, None) => IOk (mkI l (i_gens s2) (i_stops s2) false (i_clk s2) (i_next s2)) []
           | _ => IErr
           end
       end
   end.
 
-(* status codes of the tick future: 0 pending, 1 value, 2 no value (generator finished) *)
-Definition istep (cb_locks : bool) (s : ist) (o : list Z) : ires :=
+Inductive iop := ICreate (g : nat) | ICall (g : nat) | IStop (g : nat) | IExp | IBad.
+
+Definition decode_iop (o : list Z) : iop :=
+  let mk c g :=
+      if (0 <=? g) && (g <? 3) then
+        if c =? 1 then ICreate (Z.to_nat g) else if c =? 2 then ICall (Z.to_nat g)
+        else if c =? 3 then IStop (Z.to_nat g) else if c =? 4 then IExp else IBad
+      else IBad in
   match o with
-  | [1] => (* create the generator (lazy: the body has not started) *)
-      match i_gen s with
-      | GNone => IOk (mkI (i_sched s) GIdle (i_stop s) false) [0; 0; Z.of_nat (length (i_sched s))]
+  | [c] => mk c 0
+  | [c; g] => mk c g
+  | _ => IBad
+  end.
+
+Definition istep' (cb_locks : bool) (tg : nat -> Z) (s : ist) (x : iop) : ires :=
+  match x with
+  | ICreate g => (* create the generator (lazy: the body has not started) *)
+      match gen_of s g with
+      | GNone => let s1 := set_gen s g GIdle in IOk s1 (iobs s1 0)
       | _ => IOk s [1]
       end
-  | [2] => (* call the generator: the body runs up to co_await waiter (or finishes when stop was requested) *)
-      match i_gen s with
-      | GIdle | GYielded =>
-          if i_stop s then
-            (* first call: the stop_callback constructor runs the callback at once (nothing to cancel) and the
-               loop condition is false; later calls: the loop condition is false *)
-            IOk (mkI (i_sched s) GDone true false) [0; 2; Z.of_nat (length (i_sched s))]
+  | ICall g => (* call the generator: the body runs up to co_await waiter (or finishes when stop was requested) *)
+      match gen_of s g with
+      | GIdle =>
+          if stop_of s g then
+            (* first call: the stop_callback constructor runs the callback at once, then the loop condition is false *)
+            match stop_callback cb_locks tg s g with
+            | IOk s1 _ => let s2 := set_gen s1 g GDone in IOk s2 (iobs s2 2)
+            | r => r
+            end
           else
-            let l := fst (schedule (i_sched s) (mkE 0 (Some 0%nat) tag)) in
-            IOk (mkI l GSleeping false false) [0; 0; Z.of_nat (length l)]
+            (* l.315: next = now() + dur at body start *)
+            let l := fst (schedule (i_sched s) (mkE (i_clk s) (Some g) (tg g))) in
+            let s1 := mkI l (set_nth (i_gens s) g GSleeping) (i_stops s) false (i_clk s + 1) (set_nth (i_next s) g (i_clk s)) in
+            IOk s1 (iobs s1 0)
+      | GYielded =>
+          if stop_of s g then let s2 := set_gen s g GDone in IOk s2 (iobs s2 2)     (* the loop condition is false *)
+          else
+            (* sleep_until(next) with the `next` read right after the previous wake-up (l.320) *)
+            let l := fst (schedule (i_sched s) (mkE (nth g (i_next s) 0) (Some g) (tg g))) in
+            let s1 := mkI l (set_nth (i_gens s) g GSleeping) (i_stops s) false (i_clk s) (i_next s) in
+            IOk s1 (iobs s1 0)
       | _ => IOk s [1]
       end
-  | [3] => (* request_stop() under the watchdog *)
-      if i_stop s then IOk s [0; 0; Z.of_nat (length (i_sched s))] else
-      match i_gen s with
+  | IStop g => (* request_stop() on generator g's stop source, under the watchdog *)
+      if stop_of s g then IOk s (iobs s 0) else
+      let s0 := mkI (i_sched s) (i_gens s) (set_nth (i_stops s) g true) (i_owner s) (i_clk s) (i_next s) in
+      match gen_of s g with
       | GSleeping | GYielded =>
           (* the callback is registered (the body has started and the frame is alive) *)
-          match stop_callback cb_locks (mkI (i_sched s) (i_gen s) true (i_owner s)) with
-          | IOk s1 _ => IOk s1 [0; match i_gen s, i_gen s1 with GSleeping, GDone => 2 | _, _ => 0 end;
-                                Z.of_nat (length (i_sched s1))]
+          match stop_callback cb_locks tg s0 g with
+          | IOk s1 _ => IOk s1 (iobs s1 (match gen_of s g, gen_of s1 g with GSleeping, GDone => 2 | _, _ => 0 end))
           | r => r
           end
-      | _ => IOk (mkI (i_sched s) (i_gen s) true (i_owner s)) [0; 0; Z.of_nat (length (i_sched s))]
+      | _ => IOk s0 (iobs s0 0)
       end
-  | [4] => (* get_expired(far future); an expired promise is resolved: the generator wakes and yields *)
+  | IExp => (* get_expired(far future); an expired promise is resolved: the generator owning it wakes and yields *)
       match acquire s with
       | None => ISelfDeadlock
       | Some s1 =>
-          match get_expired (i_sched s1) 1 with
-          | Ok (l, ExpP _) => IOk (mkI l GYielded (i_stop s) false) [0; 1; Z.of_nat (length l)]
-          | Ok (l, _) => IOk (mkI l (i_gen s) (i_stop s) false) [0; 0; Z.of_nat (length l)]
+          match get_expired (i_sched s1) (i_clk s1) with
+          | Ok (l, ExpP t) =>
+              match e_p t with
+              | Some g' => (* the generator wakes, reads the clock for its next tick (l.320) and yields *)
+                  let s2 := mkI l (set_nth (i_gens s) g' GYielded) (i_stops s) false (i_clk s + 1) (set_nth (i_next s) g' (i_clk s)) in
+                  IOk s2 (iobs s2 1)
+              | None => IErr
+              end
+          | Ok (l, _) => let s2 := mkI l (i_gens s) (i_stops s) false (i_clk s) (i_next s) in IOk s2 (iobs s2 0)
           | _ => IErr
           end
       end
-  | _ => IOk s [1]
+  | IBad => IOk s [1]
   end.
 
-Fixpoint irun_from (cb_locks : bool) (s : ist) (ops : list (list Z)) : list (list Z) :=
+Definition istep (cb_locks : bool) (tg : nat -> Z) (s : ist) (o : list Z) : ires := istep' cb_locks tg s (decode_iop o).
+
+Fixpoint irun_from (cb_locks : bool) (tg : nat -> Z) (s : ist) (ops : list (list Z)) : list (list Z) :=
   match ops with
   | [] => []
   | o :: t =>
-      match istep cb_locks s o with
-      | IOk s1 ob => ob :: irun_from cb_locks s1 t
+      match istep cb_locks tg s o with
+      | IOk s1 ob => ob :: irun_from cb_locks tg s1 t
       | ISelfDeadlock => [[-998]]
       | IErr => [[-999]]
       end
   end.
 
-Definition interval_run (ops : list (list Z)) : list (list Z) := irun_from false ist0 ops.
+Definition interval_run (ops : list (list Z)) : list (list Z) := irun_from false tag ist0 ops.
 
-(* property on a trace: no hang, no crash marker, one observation per op, and a stop request while the
-   generator sleeps ends it (tick future ready without value) with the heap left empty *)
+(* property on a trace: no hang, no crash marker, one observation per op; a stop request ends exactly the generator
+   whose token was signalled (iff it sleeps: its tick future becomes ready without value, its entry leaves the pending
+   set), the others keep their state and keep ticking — the scenario is deterministic, so this is the model's trace *)
 Definition interval_oracle (ops obs : list (list Z)) : bool :=
   (length ops =? length obs)%nat
   && forallb (fun o => match o with x :: _ => negb (x =? -998) && negb (x =? -999) | [] => false end) obs
@@ -771,6 +823,39 @@ Definition thread_events (far near : Z) : list wev :=
 
 Definition done_pid (w : wst) (p : nat) : bool :=
   existsb (fun x => match e_p (fst x) with Some q => Nat.eqb p q | None => false end) (w_done w).
+
+(* op [5; fl; mask; o1 .. ok] (fl = 0 own thread / 1 thread pool; 2 <= k <= 4 sleepers at t0 + o_i ms, o1 >= 200, gaps >= 200):
+   all sleepers are scheduled; the worker is blocked on the FIRST deadline (harness: it has passed the "sched_wait" point
+   since the first schedule); the sleepers selected by the bit mask are cancelled from the test thread (remove pops or
+   empties them, never notifies); the clock then passes every deadline.  Observation: status, number of sleeps seen
+   completed before their own time point, final state of every sleep (1 value, 3 cancelled). *)
+Fixpoint offs_ok (prev : Z) (l : list Z) : bool :=
+  match l with [] => true | o :: t => (prev + 200 <=? o) && offs_ok o t end.
+
+Fixpoint cb_ticks (prev : Z) (l : list Z) : list wev :=
+  match l with
+  | [] => []
+  | o :: t => [WTick (o - prev); WIter; WBlock; WIter; WBlock; WIter; WBlock] ++ cb_ticks o t
+  end.
+
+Definition cb_events (mask : Z) (offs : list Z) : list wev :=
+  let idx := seq 0 (length offs) in
+  map (fun p => WSchedule (fst p) (1 + Z.of_nat (fst p)) (snd p)) (combine idx offs)
+  ++ [WIter; WBlock]
+  ++ flat_map (fun i => if Z.testbit mask (Z.of_nat i) then [WRemove (1 + Z.of_nat i)] else []) idx
+  ++ cb_ticks 0 offs.
+
+Definition has_pid (l : list entry) (p : nat) : bool :=
+  existsb (fun e => match e_p e with Some q => Nat.eqb p q | None => false end) l.
+
+Definition cancel_blocked (fl mask : Z) (offs : list Z) : list Z :=
+  if ((fl =? 0) || (fl =? 1)) && (2 <=? length offs)%nat && (length offs <=? 4)%nat && offs_ok 0 offs
+     && (last offs 0 <=? 1000) && (0 <=? mask) && (mask <? 2 ^ Z.of_nat (length offs)) then
+    let w := wrun true wst0 (cb_events mask offs) in
+    let early := length (filter (fun x => snd x <? e_tp (fst x)) (w_done w)) in
+    0 :: Z.of_nat early ::
+      map (fun i => if has_pid (map fst (w_done w)) i then 1 else if has_pid (w_rm w) i then 3 else 0) (seq 0 (length offs))
+  else [1].
 
 Definition is_fin (w : wst) : bool := match w_mode w with WFin => true | _ => false end.
 
@@ -795,6 +880,7 @@ Definition thread_obs (o : list Z) : list Z :=
   | [2; far] => race far
   | [3; far; near] => idle far near
   | [4; far] => race far
+  | 5 :: fl :: mask :: offs => cancel_blocked fl mask offs
   | _ => [1]
   end.
 
@@ -804,6 +890,16 @@ Definition thread_run (ops : list (list Z)) : list (list Z) := map thread_obs op
    or had expired — and it cannot have expired when its time point lies beyond the whole observation window *)
 Definition thread_ok (p : list Z * list Z) : bool :=
   match fst p with
+  | 5 :: _ :: mask :: offs =>
+      (* nobody completed before its own time point; the cancelled sleeps got the exception, all others their value:
+         each exactly once, whatever was cancelled while the worker was blocked *)
+      match thread_obs (fst p), snd p with
+      | [1], [1] => true
+      | 0 :: _, 0 :: early :: sts =>
+          (early =? 0) &&
+          zlist_eqb sts (map (fun i => if Z.testbit mask (Z.of_nat i) then 3 else 1) (seq 0 (length offs)))
+      | _, _ => false
+      end
   | [2; far] | [4; far] =>
       (* the destructor returned (no lost wake-up) and a still pending sleep was cancelled, not left hanging *)
       match thread_obs (fst p), snd p with
